@@ -271,6 +271,11 @@ int run_phantom(const Args& a) {
                     d.str("inserted_key", hex(ck)).str("candidate_class", cls).num("set_size", rr.nv.size()).num("produced", rr.keys.size()).boolean("complete", rr.complete);
                     d.num("tree", t).str("family", TreeGen::family_name(family)).num("keys", model.size());
                     if (!rr.keys.empty()) { d.str("last_produced", hex(rr.keys.back())); }
+                    if (model.size() <= 6) {
+                        std::vector<std::string> mk;
+                        for (auto& kv : model) { mk.push_back(jesc(hex(kv.first))); }
+                        d.raw("all_stored_keys", jarr(mk));
+                    }
                     std::string key = "phantom:" + s.label() + (rr.nv.empty() ? ":insert-undetected-empty-set" : ":insert-undetected");
                     rep.violation(key, "insert into the covered interval left every collected (version,node) pair fresh", d.done());
                 }
